@@ -128,15 +128,23 @@ package ratelimitmw
 //@ ghost accessChecks int
 //@ ghost lastAccessBlocked bool
 
+// qname(s): the name of a question as access rules match it - lower case,
+// without the final dot, and the root as "." (the profiles' rule engine matches
+// the same form).
+//@ pred qname(s string) = s == "." ? "." : lowerOf(trimSuffix(s, "."))
 //@ func (*Middleware).isBlockedByAccess
 //@   property C10
-//@   requires MW(mw) && ri != nil && req != nil && DRValid(ri.DeviceResult)
+//@   requires MW(mw) && ri != nil && req != nil && DRValid(ri.DeviceResult) && len(req.Question) >= 1
+//@   requires the-request-information-describes-this-request: ri.Host == lowerOf(trimSuffix(req.Question[0].Name, ".")) && ri.QType == req.Question[0].Qtype
+// From the property statement: the request is rejected when ITS QUESTION matches
+// a global blocked-name rule - for every question name, the root included.
+//@   atcall IsBlockedHost assert the-global-name-rules-see-the-questions-own-name-and-type: arg1 == qname(req.Question[0].Name) && arg2 == req.Question[0].Qtype
 //@   modifies accessChecks, lastAccessBlocked
 //@   ghostset accessChecks = accessChecks + 1
 //@   ghostset lastAccessBlocked = isBlocked
 //@   ensures accessChecks == old(accessChecks) + 1 && lastAccessBlocked == isBlocked
 //@   ensures global-then-profile: isBlocked == (globBlockedIP(mw.accessManager, addrOf(raddr)) ||
-//@             globBlockedHost(mw.accessManager, ri.Host, ri.QType) ||
+//@             globBlockedHost(mw.accessManager, qname(req.Question[0].Name), req.Question[0].Qtype) ||
 //@             (isptr(ri.DeviceResult, agd.DeviceResultOK) && asptr(ri.DeviceResult, agd.DeviceResultOK).Profile != nil &&
 //@               profBlocked(asptr(ri.DeviceResult, agd.DeviceResultOK).Profile.Access, req, raddr, ri.Location)))
 
@@ -148,7 +156,7 @@ package ratelimitmw
 //@ ghost lastFound agd.DeviceResult
 //@ interface agd.DeviceFinder method Find
 //@   modifies heap, lastFound
-//@   preserves agd.RequestInfo.*, Middleware.*
+//@   preserves agd.RequestInfo.*, Middleware.*, dns.Msg.Question, allelems(dns.Question)
 //@   ensures lastFound == result && DRValid(result) && (isptr(result, agd.DeviceResultOK) ==> asptr(result, agd.DeviceResultOK).Profile != nil)
 //@ func dnsmsg.NewConstructor
 //@   modifies nothing
@@ -157,14 +165,11 @@ package ratelimitmw
 //@   modifies nothing
 //@ func (*dnsmsg.Constructor).Cloner
 //@   modifies nothing
-//@ func agdnet.NormalizeDomain
-//@   modifies nothing
-//@   ensures host == lowerOf(trimSuffix(fqdn, "."))
 //@ func (*Middleware).newRequestInfo
 //@   property C07
 //@   requires MW(mw) && req != nil && len(req.Question) >= 1 && mw.logger != nil
 //@   modifies heap, lastFound
-//@   preserves Middleware.*
+//@   preserves Middleware.*, dns.Msg.Question, allelems(dns.Question)
 //@   ensures ri != nil && DRValid(ri.DeviceResult)
 //@   ensures nothing-left-over-from-the-previous-request: ri.ECS == nil && ri.Location == nil && ri.DeviceResult == lastFound &&
 //@             (ri.Messages == mw.messages || fresh(ri.Messages)) &&
